@@ -204,3 +204,17 @@ pub fn now_ns() -> u64 {
     }
     ts.tv_sec as u64 * 1_000_000_000 + ts.tv_nsec as u64
 }
+
+/// is a notification of the poller (its internal eventfd, registered with the reserved key) still unconsumed?
+/// `None` if the notifier cannot be identified
+pub fn poller_notify_pending(epfd: RawFd) -> Option<bool> {
+    let mut found = None;
+    for e in epoll_table(epfd) {
+        if e.data == u64::MAX {
+            if let Some(n) = eventfd_count(e.tfd) {
+                found = Some(found.unwrap_or(false) || n > 0);
+            }
+        }
+    }
+    found
+}
